@@ -943,6 +943,17 @@ def policy_flow(prog: Program) -> RuleResult:
             name = dotted(call.func)
             arg = None
             what = None
+            if name == "Entry" and len(call.args) == 2 and (dotted(call.args[1]) or "").startswith("RetentionPolicy."):
+                # an aggregate or result entry with a hard-wired retention policy, whatever its merge policy
+                res.fail(
+                    f"{base}/Entry[{short(call.args[1])}]",
+                    f"`{short(call, 70)}` fixes the retention policy of an entry to `{short(call.args[1])}`: under ALL the "
+                    "tied candidates it drops are optimal solutions that are never decoded (aggregates are made with "
+                    "`table.entry()`, results with the caller's policy)",
+                    mod,
+                    call,
+                )
+                continue
             if name == "Entry" and len(call.args) == 2 and dotted(call.args[0]) in ("MergePolicy.MIN", "MergePolicy.MAX"):
                 arg, what = call.args[1], "Entry"
             elif name == "Table":
@@ -1430,8 +1441,14 @@ def event_exhaustive(prog: Program) -> RuleResult:
 
 
 def _eq_member(test: ast.AST, member: str) -> bool:
-    if isinstance(test, ast.Compare) and len(test.ops) == 1 and isinstance(test.ops[0], ast.Eq):
+    """the test holds (at least) whenever the event is `member`: `e == M`, `e is M`, `e in (.., M, ..)`, or a
+    disjunction with such a part"""
+    if isinstance(test, ast.BoolOp) and isinstance(test.op, ast.Or):
+        return any(_eq_member(v, member) for v in test.values)
+    if isinstance(test, ast.Compare) and len(test.ops) == 1 and isinstance(test.ops[0], (ast.Eq, ast.Is)):
         return any(dotted(s) == f"NodeEvent.{member}" for s in (test.left, test.comparators[0]))
+    if isinstance(test, ast.Compare) and len(test.ops) == 1 and isinstance(test.ops[0], ast.In) and isinstance(test.comparators[0], (ast.Tuple, ast.List, ast.Set)):
+        return any(dotted(e) == f"NodeEvent.{member}" for e in test.comparators[0].elts)
     return False
 
 
